@@ -12,7 +12,9 @@
    Go map iteration (for ... range reversedObjects / Types / Enums) is the argument [o], some
    ordering of the groups.  sort.Slice-by-Name and sort.Strings are Section variables; the proofs
    assume only that they return a sorted permutation.  goify (strcase-based name mangling) is a
-   Section variable (oracle).  A Go panic (unknown type, missing flags word) is [Panic]. *)
+   Section variable (oracle).  A Go panic (unknown type, missing flags word) is [Panic].
+   Theorems (TLGen/ClassifyProofs.v, stated in Props/C14.v): C14_layout, C14_deterministic,
+   C14_generator_total. *)
 From Coq Require Import String.
 From Coq Require Import ZArith NArith List Lia Bool.
 From MTV Require Import Base.Bytes Base.Outcome Base.Str TLGen.Parser.
